@@ -13,7 +13,7 @@ from schema import (HAND, emit_schema, F_MULTI, F_TITLE, F_LIST, o_int, o_float,
 SCHEMA = [
     o_int("a", 1), o_str("s", "sd"), o_list("int", "l", "{1, 2}"), o_float("f", "0.5"),
     o_sec("sec", [o_int("x", 7), o_str("y", "why")], F_MULTI | F_TITLE), o_sec("single", [o_int("x", 7)]),
-    o_func("include", "include"), o_func("fn"), o_func("nest", "nest"), o_int("dep", 1, 512), o_list("str", "depl", "{x}", 512 | 1024),
+    o_func("include", "include"), o_func("fn"), o_func("nest", "nest"), o_func("nestfree", "nestfree"), o_int("dep", 1, 512), o_list("str", "depl", "{x}", 512 | 1024),
     # sacrificial options: only aborting texts mention them; the comparison ignores them
     o_int("zi", 0), o_float("zf", "0"), o_str("zs", "z"), o_list("str", "zl", None),
 ]
@@ -97,7 +97,7 @@ class C08:
             "10-deep include chain, LONG_MAX, texts ending in each quoting state, a failing and a plain text); differential "
             "oracle: the same history with every aborting parse removed, run in a fresh process, must give identical return "
             "codes, diagnostics (file, line, count), callback invocations and trees (sacrificial options ignored) for every remaining parse and "
-            "every probe. In addition six directed texts in which a function callback parses into the other live context while the outer parse is "
+            "every probe. In addition eight directed texts in which a function callback parses into the other live context (or creates, uses and frees a context of its own) while the outer parse is "
             "inside an included file / a section: outer result, diagnostics and tree must equal those of the twin text with a plain "
             "function in that place. Non-trivial = history with >= 1 aborting parse; distinct = distinct histories" % (len(EVENTS), len(PROBES)))
     assumptions = ["aborting texts only mention sacrificial options (an aborted parse may leave earlier items applied)",
@@ -217,6 +217,9 @@ class C08:
         ("include(\"c08_n1.conf\")\ns = last\n", {"c08_n1.conf": "nest(2, \"include(\\\"c08_n2.conf\\\")\")\na = 4\nl += 7\n", "c08_n2.conf": "f = 1.5\n"}),
         ("include(\"c08_n1.conf\")\ns = last\n", {"c08_n1.conf": "a = 4\nnest(2, \"zs = 'unterminated\")\nl += 7\nsingle { x = 3 }\n"}),
         ("single {\n x = 4\n nest(2, \"a = 1\")\n}\ninclude(\"c08_n1.conf\")\n", {"c08_n1.conf": "sec u {\n nest(2, \"zzz\")\n y = in\n}\na = 9\n"}),
+        # the callback creates, uses and frees a context of its own in the middle of the outer parse
+        ("a = 2\nnestfree(\"a = 7\")\ns = after\nl += 5\n", {}),
+        ("include(\"c08_n1.conf\")\nl += 5\n", {"c08_n1.conf": "a = 3\nnestfree(\"s = x\")\ns = inner\nsec t { x = 2 }\n"}),
     ]
 
     def check_nested(self, case, get_ex):
@@ -230,10 +233,10 @@ class C08:
             s.add("mkdir", hx(base))
             s.add("cwd", hx(base))
             for n, c in files.items():
-                s.add("mkfile", hx(os.path.join(base, n)), hx(c.replace("nest(", "fn(") if twin else c))
+                s.add("mkfile", hx(os.path.join(base, n)), hx(c.replace("nestfree(", "fn(").replace("nest(", "fn(") if twin else c))
             s.add("init", 1, 0, 0)
             s.add("init", 2, 0, 0)
-            ip = s.add("parse_buf", 1, hx(main.replace("nest(", "fn(") if twin else main))
+            ip = s.add("parse_buf", 1, hx(main.replace("nestfree(", "fn(").replace("nest(", "fn(") if twin else main))
             idd = s.add("dump", 1)
             ip2 = s.add("parse_buf", 1, hx(PROBES[0]))
             s.add("free", 1)
